@@ -117,7 +117,7 @@ def plan(pid, tier, seed):
         out += r.sample(rest, min(len(rest), cap - len(out)))
         return out
 
-    def crash_runs(n, calls, small_cache=0.3):
+    def crash_runs(n, calls, small_cache=0.3, gen2=False):
         def g():
             out = []
             for k in range(n):
@@ -127,7 +127,7 @@ def plan(pid, tier, seed):
                 st = gen.flush_history(rng, calls, cfg) if rng.random() < 0.5 else gen.purge_history(rng, calls, cfg)
                 out.append(dict(mode=rng.choice(["free", "jitter"]), tag="crashprobe", steps=st,
                                 probes={"crash": {"stride": 1 if q else 1, "per_pos": 6 if q else 16, "cont": True,
-                                                  "bytes": not q}}))
+                                                  "bytes": not q, "gen2": gen2}}))
             return out
         P["gen"].append(g)
 
@@ -185,7 +185,7 @@ def plan(pid, tier, seed):
                pick=lambda behs, cap, r: r.sample([b for b in behs if any(st["a"] == "crash_in_open" for st in b)] or behs,
                                                   min(cap, len([b for b in behs if any(st["a"] == "crash_in_open" for st in b)] or behs))),
                timeout=900 if q else 3000)
-        crash_runs(36 if q else 400, 14 if q else 40)
+        crash_runs(36 if q else 400, 14 if q else 40, gen2=(pid == "C05"))
         P["need"] = dict(probes=3000, crashes=500)
     elif pid in ("C09", "C10"):
         mc("MC_Seq", ("MC_%s_q.cfg" if q else "MC_%s_t.cfg") % pid, 300 if q else 2000, timeout=900 if q else 3000)
